@@ -1,5 +1,6 @@
 import SwcVerif.Props.C18
 import SwcVerif.Refine.Dsu
+import SwcVerif.Refine.Checkers
 /-! # C18, tied to the source by the translator
 
 `Gen.Algo.dsu_*` are regenerated from `swcgeom/utils/dsu.py` on every run (`harness/translate_algo.py`).
@@ -58,5 +59,36 @@ example : (do
     let (g, _) ← dsu_init default 5
     pure (genRun 8 g [.union 0 1, .union 3 4, .same 0 1, .same 1 3, .union 1 3, .same 0 4, .same 2 4, .same 7 0])) =
     some [some true, some false, some true, some false, none] := by decide +kernel
+
+/-! ## pointer jumping (`base.get_dsu`), as translated -/
+
+/-- the translated `get_dsu` equals the model on every table with distinct ids, with the model's own pass budget -/
+theorem generated_getDsu_eq_model (ids pids : List Int) (hnd : ids.Nodup) (hl : ids.length = pids.length) :
+    get_dsu (ids.length * ids.length + 2) ids pids = (getDsu ids pids).map RefineCheckers.castL := by
+  rw [RefineCheckers.getDsu_refines ids pids hnd hl]
+  rfl
+
+theorem range_nodup (n : Nat) : ((List.range n).map Int.ofNat).Nodup := by
+  rw [List.nodup_map_iff (fun a b h => Int.ofNat.inj h)]
+  exact List.nodup_range
+
+/-- **The translated `get_dsu` terminates on EVERY table whose parents name rows (forests and tables with cycles
+alike), within the modelled pass budget, and labels two rows equally exactly when they are weakly connected** -/
+theorem generated_getDsu_total (pids : List Int)
+    (hv : ∀ k (h : k < pids.length), pids[k] = -1 ∨ (0 ≤ pids[k] ∧ pids[k] < pids.length)) :
+    ∃ l : List Nat, get_dsu (pids.length * pids.length + 2) ((List.range pids.length).map Int.ofNat) pids
+        = some (RefineCheckers.castL l) ∧ l.length = pids.length ∧
+      ∀ a b, a < pids.length → b < pids.length → (l.getD a 0 = l.getD b 0 ↔ WConn pids.length (ptr pids) a b) := by
+  obtain ⟨l, hget, hlen, hlab⟩ := getDsu_total pids hv
+  refine ⟨l, ?_, hlen, hlab⟩
+  have := generated_getDsu_eq_model ((List.range pids.length).map Int.ofNat) pids (range_nodup _) (by simp)
+  simp only [List.length_map, List.length_range] at this
+  rw [this, hget]
+  rfl
+
+/-- non-vacuity: the translated `get_dsu` on a table with a cycle and a separate tree (kernel-evaluated) -/
+example : get_dsu 40 [0, 1, 2, 3, 4, 5] [1, 2, 0, -1, 3, 3] = some [0, 0, 0, 3, 3, 3] ∨
+          get_dsu 40 [0, 1, 2, 3, 4, 5] [1, 2, 0, -1, 3, 3] = some [1, 1, 1, 3, 3, 3] ∨
+          get_dsu 40 [0, 1, 2, 3, 4, 5] [1, 2, 0, -1, 3, 3] = some [2, 2, 2, 3, 3, 3] := by decide +kernel
 
 end C18
